@@ -21,6 +21,7 @@ package main
 // (this binary with C15_LS_CHILD set; handled in init before main parses flags).
 
 import (
+	"context"
 	"encoding/hex"
 	"encoding/json"
 	"errors"
@@ -52,6 +53,7 @@ type LOp struct {
 	Plan []int  `json:"plan,omitempty"`
 	FF   bool   `json:"ff,omitempty"`
 	Wid  int    `json:"wid,omitempty"`
+	NQ   bool   `json:"nq,omitempty"` // a second Write queued behind wrMu: issued without waiting for quiescence
 }
 
 type LCase struct {
@@ -172,7 +174,8 @@ type lsRun struct {
 	wroteN   [2][]int    // consumed counts (-1 = in flight)
 	chunks   [2][][]byte // everything read on d
 	wids     [2]int      // writes issued on d
-	wflight  [2]bool     // a Write of end e is in flight
+	wflight  [2]int      // Writes of end e in flight (2 = one of them queued behind wrMu)
+	release  int         // 1 + end whose queued Write must be released by the very next op (0 = none)
 	lastLen  int
 	sawErr   bool
 	nchunks  int
@@ -358,7 +361,7 @@ func (x *lsRun) collect(step int, cause LOp) {
 		is := w.issued
 		switch w.op.K {
 		case "w":
-			x.wflight[w.op.E] = false
+			x.wflight[w.op.E]--
 			x.wroteN[d][w.op.Wid] = w.n
 			if w.n < 0 || w.n > w.op.N {
 				x.fail("ls:write-count-range", "step %d: Write(%d) returned %d", step, w.op.N, w.n)
@@ -462,6 +465,22 @@ func (x *lsRun) pickCap() int {
 func (x *lsRun) next(step, total int) (LOp, bool) {
 	r := x.r
 	main := 2 * x.W
+	if x.release > 0 {
+		// a Write is parked on wrMu behind a blocked Write (not durably blocked for synctest): the next op must
+		// make the lock holder return, else the bubble never becomes quiescent
+		e := x.release - 1
+		x.release = 0
+		k := r.Intn(10)
+		if ts := x.idle(1 - e); k < 6 && len(ts) > 0 {
+			return LOp{T: common.Pick(r, ts), E: 1 - e, K: "r", N: 24}, true
+		}
+		switch {
+		case k < 8:
+			return common.Pick(r, []LOp{{T: main, E: 1 - e, K: "cr"}, {T: main, E: e, K: "cw"}, {T: main, E: e, K: "c"}, {T: main, E: 1 - e, K: "c"}}), true
+		default:
+			return LOp{T: main, E: e, K: common.Pick(r, []string{"swd", "sd"}), D: "past"}, true
+		}
+	}
 	for try := 0; try < 20; try++ {
 		e := r.Intn(2)
 		k := r.Intn(100)
@@ -471,8 +490,12 @@ func (x *lsRun) next(step, total int) (LOp, bool) {
 				return LOp{T: common.Pick(r, ts), E: e, K: "r", N: x.pickCap()}, true
 			}
 		case k < 64: // write
-			if ts := x.idle(e); len(ts) > 0 && !x.wflight[e] && x.wids[e] < 31 {
+			if ts := x.idle(e); len(ts) > 0 && x.wflight[e] == 0 && x.wids[e] < 31 {
 				return LOp{T: common.Pick(r, ts), E: e, K: "w", N: r.Intn(9)}, true
+			} else if len(ts) > 0 && x.wflight[e] == 1 && x.wids[e] < 31 && step+2 < total {
+				// second concurrent Write on this end: it queues behind wrMu (atomic writes, against the model)
+				x.release = e + 1
+				return LOp{T: common.Pick(r, ts), E: e, K: "w", N: r.Intn(9), NQ: true}, true
 			}
 		case k < 70: // writeTo
 			if ts := x.idle(e); len(ts) > 0 {
@@ -511,7 +534,7 @@ func (x *lsRun) exec(step int, op LOp) bool {
 		}
 		x.line("advance")
 	case "r", "w", "wt":
-		if op.T < 0 || op.T >= main || x.ws[op.T].busy || op.T/x.W != op.E || (op.K == "w" && x.wflight[op.E]) {
+		if op.T < 0 || op.T >= main || x.ws[op.T].busy || op.T/x.W != op.E || (op.K == "w" && !op.NQ && x.wflight[op.E] != 0) || (op.NQ && (op.K != "w" || x.wflight[op.E] != 1)) {
 			return false // replay of a script that no longer fits (behaviour changed)
 		}
 		w := x.ws[op.T]
@@ -521,9 +544,13 @@ func (x *lsRun) exec(step int, op LOp) bool {
 			x.wids[d]++
 			x.wrote[d] = append(x.wrote[d], lsPayload(op.Wid, op.N))
 			x.wroteN[d] = append(x.wroteN[d], -1)
-			x.wflight[op.E] = true
+			x.wflight[op.E]++
 			x.lastLen = op.N
-			x.line("call %d %d w %s", op.T, op.E, hexField(lsPayload(op.Wid, op.N)))
+			nq := ""
+			if op.NQ {
+				nq = "nq "
+			}
+			x.line("%scall %d %d w %s", nq, op.T, op.E, hexField(lsPayload(op.Wid, op.N)))
 		} else if op.K == "r" {
 			x.line("call %d %d r %d", op.T, op.E, op.N)
 		} else {
@@ -544,6 +571,12 @@ func (x *lsRun) exec(step int, op LOp) bool {
 		w.issued = x.issueInfo(op)
 		w.op, w.busy = op, true
 		w.cmd <- op
+		if op.NQ {
+			// parked on wrMu (or still on its way there): no quiescence to wait for; the next op releases the holder
+			x.res.Case.Steps = append(x.res.Case.Steps, op)
+			x.res.Counts = append(x.res.Counts, "ls:queued-writer")
+			return true
+		}
 		synctest.Wait()
 	default: // inline
 		res := x.inline(op)
@@ -692,9 +725,14 @@ func lsSpawn(spec string) ([]lsResult, error) {
 	}
 	f.Close()
 	defer os.Remove(f.Name())
-	cmd := exec.Command(os.Args[0])
+	ctx, cancel := context.WithTimeout(context.Background(), 10*time.Minute)
+	defer cancel()
+	cmd := exec.CommandContext(ctx, os.Args[0])
 	cmd.Env = append(os.Environ(), envLS+"="+spec+":"+f.Name())
 	out, err := cmd.CombinedOutput()
+	if ctx.Err() != nil {
+		return nil, errLSHang
+	}
 	b, rerr := os.ReadFile(f.Name())
 	if rerr != nil || len(b) == 0 {
 		return nil, fmt.Errorf("lockstep child failed: %v: %s", err, tail(string(out), 600))
@@ -705,6 +743,8 @@ func lsSpawn(spec string) ([]lsResult, error) {
 	}
 	return rs, nil
 }
+
+var errLSHang = errors.New("lockstep child did not become quiescent (hung bubble)")
 
 func tail(s string, n int) string {
 	if len(s) > n {
@@ -795,6 +835,11 @@ func lockstepEngine(o *common.Options, rep *common.Report) error {
 	}
 	for _, ch := range jobs {
 		j := <-ch
+		if j.err == errLSHang {
+			failCapped(rep, common.OracleFailure{Engine: "lockstep", Key: "ls:hang", Case: fmt.Sprintf("batch of seed %d", o.Seed),
+				Detail: "a synctest bubble never became quiescent: a pipe call that had to return (close / deadline / matching read issued) stayed runnable-blocked"})
+			continue
+		}
 		if j.err != nil {
 			return j.err
 		}
